@@ -588,7 +588,7 @@ def run(cx):
     hdr = header_regexes(pm)
     if len(hdr) < 8:
         raise AnalysisError(f"block-header regexes not recognised ({sorted(hdr)})")
-    r = cx.rule("C07-STRIP", "the text matched against a block-header regex (while/for/if/elif/else/try/except/def) is always derived from _strip_inline_comment(...), so trailing comments never hide a header", floor=15)
+    r = cx.rule("C07-STRIP", "the text matched against a block-header regex (while/for/if/elif/else/try/except/def) is always derived from _strip_inline_comment(...), so trailing comments never hide a header (what a trailing comment does to each statement kind is decided by evaluation in C07-SPACING)", floor=6)
     for fn_q, fn in pm.funcs.items():
         defs = None
         for n in walk_local(fn, include_self=False):
